@@ -40,15 +40,23 @@ type Conflict struct {
 	Reason string
 }
 
+// conflictKey identifies a reported conflict by the two list entries involved (not by their
+// path text) so that distinct entries sharing the same path and verb are each reported.
+type conflictKey struct {
+	entry    *RouteEntry
+	existing *RouteEntry
+	reason   string
+}
+
 // FindConflicts returns deterministic list of route conflicts.
 // Methods are respected: only endpoints with the same method can conflict.
 func FindConflicts(entries []RouteEntry) []Conflict {
 	root := newTrieNode()
 	var conflicts []Conflict
-	seen := map[string]bool{}
+	seen := map[conflictKey]bool{}
 
 	for i := range entries {
-		entry := entries[i]
+		entry := &entries[i]
 		normPath := normalizePath(entry.Path)
 		newSegments := splitSegments(normPath)
 
@@ -78,7 +86,7 @@ func FindConflicts(entries []RouteEntry) []Conflict {
 		// endpoint (method-aware)
 		existing := curr.endpoint[entry.Method]
 		if existing != nil {
-			addConflict(&conflicts, seen, entry, *existing, "duplicate method/path combination")
+			addConflict(&conflicts, seen, entry, existing, "duplicate method/path combination")
 		} else {
 			// register endpoint for this method
 			curr.endpoint[entry.Method] = &entries[i]
@@ -172,9 +180,9 @@ func collectEndpointsByMethod(n *trieNode, method string) []*RouteEntry {
 
 func reportParamVsLiterals(
 	conflicts *[]Conflict,
-	seen map[string]bool,
+	seen map[conflictKey]bool,
 	curr *trieNode,
-	entry RouteEntry,
+	entry *RouteEntry,
 	newSegments []string,
 	seg string,
 ) {
@@ -198,16 +206,16 @@ func reportParamVsLiterals(
 				ep.Method,
 				ep.Path,
 			)
-			addConflict(conflicts, seen, entry, *ep, reason)
+			addConflict(conflicts, seen, entry, ep, reason)
 		}
 	}
 }
 
 func reportParamVsParam(
 	conflicts *[]Conflict,
-	seen map[string]bool,
+	seen map[conflictKey]bool,
 	curr *trieNode,
-	entry RouteEntry,
+	entry *RouteEntry,
 	newSegments []string,
 	idx int,
 	seg string,
@@ -230,15 +238,15 @@ func reportParamVsParam(
 			ep.Method,
 			ep.Path,
 		)
-		addConflict(conflicts, seen, entry, *ep, reason)
+		addConflict(conflicts, seen, entry, ep, reason)
 	}
 }
 
 func reportLiteralVsParam(
 	conflicts *[]Conflict,
-	seen map[string]bool,
+	seen map[conflictKey]bool,
 	curr *trieNode,
-	entry RouteEntry,
+	entry *RouteEntry,
 	newSegments []string,
 	idx int,
 	seg string,
@@ -261,22 +269,22 @@ func reportLiteralVsParam(
 			ep.Method,
 			ep.Path,
 		)
-		addConflict(conflicts, seen, entry, *ep, reason)
+		addConflict(conflicts, seen, entry, ep, reason)
 	}
 }
 
-func addConflict(out *[]Conflict, seen map[string]bool, a RouteEntry, b RouteEntry, reason string) {
-	aPath, bPath := a.Path, b.Path
-	// canonical order
-	if aPath > bPath {
-		aPath, bPath = bPath, aPath
-		a, b = b, a
-	}
-	key := aPath + "||" + bPath + "||" + reason
+func addConflict(out *[]Conflict, seen map[conflictKey]bool, entry *RouteEntry, existing *RouteEntry, reason string) {
+	key := conflictKey{entry: entry, existing: existing, reason: reason}
 	if seen[key] {
 		return
 	}
 	seen[key] = true
+
+	a, b := *entry, *existing
+	// canonical order
+	if a.Path > b.Path {
+		a, b = b, a
+	}
 	*out = append(*out, Conflict{A: a, B: b, Reason: reason})
 }
 
